@@ -5,6 +5,12 @@ requests carrying generated Range headers, plus everything logged with a failure
 Oracle: vf.engines.refrange (RFC 9110 section 14 resolver + multipart/byteranges reader) applied to the
 header value and the known, position-identifying file content.
 
+One long-lived Site/root File serves every request of a shard (state left over between requests); 12% of the
+cases send a second range request over the same keep-alive connection; in 20% the transport pauses the
+channel from inside write() after 1..66000 response bytes (buffer full) and resumes two iterations later; files of 65535 / 65537 /
+131072 / 140001 bytes with single ranges of one or two producer batches +-1 byte; in 3% the client goes
+away while the producer is paused mid-response (the transport stops its producer first, as TCP does), where only "never an internal error" (nothing logged, nothing escapes) is judged.
+
 Guards against false alarms (where servers legitimately have latitude):
 * RFC-invalid values that Python's int() would still read ("+1-2", "1_0-20", inner blanks,
   "Bytes=", "bytes =", empty set "bytes=", negative numbers) are a don't-care region: 200-whole,
@@ -36,10 +42,12 @@ ASSUMPTIONS = ["trusted base: vf/engines/refrange.py (RFC 9110 14.1.2 resolution
                "the in-memory transport (vf/engines/netsim.SimTransport) stands in for TCP; responses are read until the channel closes (Connection: close)"]
 SHARDS = {"quick": 4, "thorough": 16}
 FLOORS = {"requests": 300, "checked_206_single": 60, "checked_206_multi": 40, "checked_416": 20,
-          "checked_200_header_ignored": 30, "multipart_parts": 80, "head_requests": 20}
+          "checked_200_header_ignored": 30, "multipart_parts": 80, "head_requests": 20, "keepalive_second_requests": 200,
+          "transport_pauses_applied": 100, "client_aborts_mid_response": 20, "big_file_cases": 50, "buffer_edge_cases": 50}
 READY = True
 
 FIXED_SIZES = [0, 1, 2, 10, 255, 4096, 65536]
+BIG_SIZES = [65535, 65537, 131072, 140001]
 MAX_ITER = 400
 MAX_IDLE = 12  # iterations without a byte written before the response is declared stuck
 
@@ -140,6 +148,20 @@ def gen_range(rng, size):
     return rng.choice(GARBAGE)
 
 
+def gen_single_edge(rng, size):
+    """None (whole file) or one range whose length is a producer batch +-1 / two batches +-1, at any offset."""
+    r = rng.random()
+    if r < 0.25:
+        return None
+    l = min(size, rng.choice([65535, 65536, 65537, 131071, 131072, 131073, size, size - 1]))
+    a = rng.randrange(0, size - l + 1)
+    if r < 0.5:
+        return b"bytes=%d-" % (size - l)
+    if r < 0.6:
+        return b"bytes=-%d" % l
+    return b"bytes=%d-%d" % (a, a + l - 1)
+
+
 def gen_buffer_edge(rng, size):
     """2-4 closed ranges whose lengths (+ ~105 bytes of separator each) add up to about 64 KiB, the
     producers' batch size (StaticProducer.bufferSize): part ends land on either side of a batch end."""
@@ -172,6 +194,23 @@ class Harness:
         self.log = LogCapture()
         self.pub = globalLogPublisher
         self.pub.addObserver(self.log)
+        self.site = None
+        self.flow_pauses = 0
+        self.written_while_paused = 0
+
+        class PausingTransport(SimTransport):
+            """Pauses its (streaming) producer from inside write() once pause_threshold bytes are written."""
+
+            pause_threshold = None
+
+            def write(s, data):
+                SimTransport.write(s, data)
+                if s.pause_threshold is not None and len(s.written) >= s.pause_threshold and s.producer is not None and s.streaming and not s.producer_paused:
+                    s.pause_threshold = None
+                    s.producer_paused = True
+                    s.producer.pauseProducing()
+
+        self.PausingTransport = PausingTransport
 
     def close(self):
         try:
@@ -191,40 +230,94 @@ class Harness:
         return self.files[size], self.contents[size]
 
     def request(self, size, method, version, value):
-        name, _ = self.file_for(size)
-        site = self.server.Site(self.static.File(self.dir), reactor=self.Clock())
-        ch = site.buildProtocol(None)
-        t = self.SimTransport()
+        out = self.exchange([(size, method, version, value)])
+        return out["raws"][0], out["failures"], out["closed"], out["escaped"]
+
+    def exchange(self, reqs, pause_after=None, abort=False):
+        """Send the requests one after the other over ONE connection to the shard's long-lived Site (its
+        root File object serves every request, as in a real server).  pause_after: once that many bytes of a
+        response are written the transport pauses the channel from inside write() (buffer full, as TCP does);
+        it resumes two reactor iterations later — or, with abort, the client goes away while paused."""
+        from twisted.internet import error
+        from twisted.python import failure
+
+        if self.site is None:
+            self.site = self.server.Site(self.static.File(self.dir), reactor=self.Clock())
+        ch = self.site.buildProtocol(None)
+        t = self.PausingTransport()
         ch.makeConnection(t)
-        req = method + b" /" + name.encode() + b" " + version + b"\r\nHost: h\r\n"
-        if value is not None:
-            req += b"Range: " + value + b"\r\n"
-        req += b"Connection: close\r\n\r\n"
         del self.log.events[:]
         escaped = None
+        raws = []
+        aborted = False
+        it = 0
         try:
-            ch.dataReceived(req)
-            n = idle = 0
-            seen = len(t.written)
-            while not t.disconnecting and n < MAX_ITER and idle < MAX_IDLE:
-                self.reactor.iterate(0)
-                if t.producer is not None and t.producer_paused:
-                    t.sim_resume_producer()
-                n += 1
-                # a producer that spins without writing would cost a cooperator time slice per iteration
-                idle = idle + 1 if len(t.written) == seen else 0
+            for idx, (size, method, version, value) in enumerate(reqs):
+                name, _ = self.file_for(size)
+                last = idx == len(reqs) - 1
+                req = method + b" /" + name.encode() + b" " + version + b"\r\nHost: h\r\n"
+                if value is not None:
+                    req += b"Range: " + value + b"\r\n"
+                req += (b"Connection: close\r\n" if last else b"") + b"\r\n"
+                start = len(t.written)
+                t.pause_threshold = None if pause_after is None else start + pause_after
+                ch.dataReceived(req)
+                n = idle = 0
                 seen = len(t.written)
+                while n < MAX_ITER and idle < MAX_IDLE:
+                    if last and t.disconnecting:
+                        break
+                    if not last and complete_response(bytes(t.written[start:]), method) is not None:
+                        break
+                    if t.producer is not None and t.producer_paused:
+                        if abort:
+                            aborted = True
+                            break
+                        before = len(t.written)
+                        for _ in range(2):
+                            self.reactor.iterate(0)
+                        self.flow_pauses += 1
+                        self.written_while_paused += len(t.written) - before
+                        t.sim_resume_producer()
+                    self.reactor.iterate(0)
+                    n += 1
+                    it += 1
+                    # a producer that spins without writing would cost a cooperator time slice per iteration
+                    idle = idle + 1 if len(t.written) == seen else 0
+                    seen = len(t.written)
+                raws.append(bytes(t.written[start:]))
+                if aborted:
+                    break
         except Exception as e:  # nothing may escape dataReceived
             escaped = "%s: %s" % (type(e).__name__, e)
         closed = t.disconnecting
         try:
-            from twisted.internet import error
-            from twisted.python import failure
-
-            ch.connectionLost(failure.Failure(error.ConnectionDone()))
+            if aborted and t.producer is not None:
+                # what abstract.FileDescriptor.connectionLost does before telling the protocol
+                p, t.producer = t.producer, None
+                p.stopProducing()
+            ch.connectionLost(failure.Failure(error.ConnectionLost() if aborted else error.ConnectionDone()))
+            if aborted:
+                for _ in range(3):
+                    self.reactor.iterate(0)
         except Exception as e:
             escaped = escaped or "connectionLost: %s: %s" % (type(e).__name__, e)
-        return bytes(t.written), self.log.failures(), closed, escaped
+        return {"raws": raws, "failures": self.log.failures(), "closed": closed, "escaped": escaped, "aborted": aborted}
+
+
+def complete_response(raw, method):
+    """Length of the first complete response in raw (framed by Content-Length), or None."""
+    i = raw.find(b"\r\n\r\n")
+    if i < 0:
+        return None
+    if method == b"HEAD":
+        return i + 4
+    for line in raw[:i].split(b"\r\n")[1:]:
+        n, _, v = line.partition(b":")
+        if n.strip().lower() == b"content-length" and v.strip().isdigit():
+            end = i + 4 + int(v.strip())
+            return end if len(raw) >= end else None
+    return None
 
 
 def parse_response(raw):
@@ -397,18 +490,65 @@ def check(ctx, case, raw, failures, closed, escaped):
     ctx.count("checked_206_multi")
 
 
-def run_case(ctx, h, size, method, version, value, sample=False):
+def run_case(ctx, h, size, method, version, value, sample=False, pause_after=None, follow=None):
+    """follow: (size2, method2, value2) sent as a second request on the same connection (keep-alive)."""
     _, data = h.file_for(size)
-    raw, failures, closed, escaped = h.request(size, method, version, value)
-    case = {"size": size, "method": method, "version": version, "value": value, "content": data}
-    ctx.count("requests")
-    ctx.evaluated()
-    if value is not None:
-        ctx.distinct((size, method, version, value))
-    check(ctx, case, raw, failures, closed, escaped)
+    reqs = [(size, method, version, value)]
+    if follow is not None and version == b"HTTP/1.1":
+        reqs.append((follow[0], follow[1], b"HTTP/1.1", follow[2]))
+    out = h.exchange(reqs, pause_after=pause_after)
+    for idx, (sz, m, ver, val) in enumerate(reqs):
+        if idx >= len(out["raws"]):
+            break
+        raw = out["raws"][idx]
+        last = idx == len(reqs) - 1
+        if not last:
+            n = complete_response(raw, m)
+            closed = n is not None
+            raw = raw if n is None else raw[:n]
+            ctx.count("keepalive_first_requests")
+        else:
+            closed = out["closed"]
+            if idx:
+                ctx.count("keepalive_second_requests")
+        case = {"size": sz, "method": m, "version": ver, "value": val, "content": h.file_for(sz)[1]}
+        ctx.count("requests")
+        ctx.evaluated()
+        if val is not None:
+            ctx.distinct((sz, m, ver, val, idx, pause_after))
+        check(ctx, case, raw, out["failures"], closed, out["escaped"])
+    if pause_after is not None:
+        ctx.count("requests_with_pausing_transport")
     if sample:
+        raw = out["raws"][0] if out["raws"] else b""
         ctx.sample({"size": size, "method": method, "range": value, "class": refrange.classify(value)[0],
                     "response_head": raw.partition(b"\r\n\r\n")[0][:300], "body_length": len(raw.partition(b"\r\n\r\n")[2])})
+
+
+def run_abort(ctx, h, size, value, abort_at):
+    """The client disappears in the middle of a response (transport buffer full, producer paused): the
+    statement's 'never fails with an internal error'."""
+    out = h.exchange([(size, b"GET", b"HTTP/1.1", value)], pause_after=abort_at, abort=True)
+    ctx.evaluated()
+    ctx.count("client_abort_cases")
+    if out["aborted"]:
+        ctx.count("client_aborts_mid_response")
+    if out["failures"] or out["escaped"]:
+        exp = refrange.expected(value, size)
+        # the separately reported producer defects also surface here; only something new is a new key
+        if not any(f[0] == "ValueError" and ("read length must be non-negative" in f[1] or "not enough values to unpack" in f[1]) for f in out["failures"]) \
+                and not (value is not None and not _utf8(value)):
+            ctx.violation("internal-error-on-client-abort", "a failure was logged / escaped when the client went away in the middle of a response",
+                          {"size": size, "range": value, "range_latin1": None if value is None else value.decode("latin-1"), "abort_after_bytes": abort_at,
+                           "class": exp["klass"], "logged_failures": out["failures"][:3], "escaped": out["escaped"], "bytes_written": len(out["raws"][0]) if out["raws"] else 0})
+
+
+def _utf8(b):
+    try:
+        b.decode("utf-8")
+        return True
+    except UnicodeDecodeError:
+        return False
 
 
 def run(ctx):
@@ -438,7 +578,22 @@ def run(ctx):
                 size = 65536
                 value = gen_buffer_edge(rng, size)
                 ctx.count("buffer_edge_cases")
-            run_case(ctx, h, size, method, version, value, sample=i < 4 * ctx.nshards)
+            elif rng.random() < 0.04:
+                # files and single ranges around one and two producer batches (bufferSize = 64 KiB)
+                size = rng.choice(BIG_SIZES)
+                value = gen_single_edge(rng, size)
+                ctx.count("big_file_cases")
+            if rng.random() < 0.03:
+                run_abort(ctx, h, rng.choice(BIG_SIZES + [65536, 4096]) if rng.random() < 0.7 else size, value, rng.choice([1, 200, 60000, 66000]))
+                continue
+            follow = None
+            if rng.random() < 0.12:
+                s2 = rng.choice(sizes[:5])
+                follow = (s2, b"HEAD" if rng.random() < 0.1 else b"GET", gen_range(rng, s2))
+            pause_after = rng.choice([1, 1, 150, 300, 60000, 66000]) if rng.random() < 0.2 else None
+            run_case(ctx, h, size, method, version, value, sample=i < 4 * ctx.nshards, pause_after=pause_after, follow=follow)
+        ctx.count("transport_pauses_applied", h.flow_pauses)
+        ctx.count("bytes_written_while_paused_unjudged", h.written_while_paused)
     finally:
         h.close()
 
